@@ -32,7 +32,10 @@ def main() -> None:
         if r["fn"] == "keep_upper_camel" and not r["type_like"]:
             continue  # python.naming.class_name requires a capital first letter
         text = core.from_cps(r["text"])
-        got = str(f(Identifier(text)))
+        try:
+            got = str(f(Identifier(text)))
+        except Exception as ex:
+            got = "<%s>" % type(ex).__name__
         checked += 1
         if got != core.from_cps(r["image"]):
             mismatches.append({"fn": r["fn"], "id": text, "spec": core.from_cps(r["image"]), "real": got})
